@@ -7,6 +7,8 @@
    raise-site skeleton of tls.py GENERATED (coq/gen/C05Tls.v). *)
 From AQ Require Import gen.C05Tls gen.TlsDispatch model.TlsParse model.TlsRecv proofs.TlsParseP proofs.TlsRecvP proofs.TlsSitesP.
 From AQ Require Import lib.Base model.Frames gen.C05Tables model.ConnRecv proofs.FramesP proofs.ConnRecvP.
+From AQ Require Import model.ConnDgram proofs.ConnDgramP.
+From AQ Require proofs.CodecProofs.
 
 (* For ALL payload byte strings and every frame boundary reached through successfully handled frames
    (induction over the frame loop), in both model variants: an empty payload closes with
@@ -223,3 +225,35 @@ Theorem tls_certificate_refuted :
   handle_message true cfg_default_client t11_ctx [t11_orc] t11_cert = MExn (XAlert AD_bad_certificate).
 Proof. exact set_peer_certificate_refuted. Qed.
 Print Assumptions tls_certificate_refuted.
+
+(* ---------------------------------------------------------------------------------------------------
+   receive_datagram from the RAW DATAGRAM BYTES (model/ConnDgram.v): gate, loop over coalesced packets, pull_quic_header
+   (C17's Header.v) inside `except ValueError`, header decisions, Version Negotiation / Retry, server initialisation,
+   key lookup, buf.seek, decryption as an oracle (failure or ANY plaintext), reserved bits, the frame loop with the TLS
+   message layer, `except QuicConnectionError -> close()`, the gate after every packet, migration.
+   For EVERY byte string, every connection state satisfying the invariant [dconn_ok] (tls_ok; _initialize() has run
+   unless this is a server in FIRSTFLIGHT; no _close_event while the gate is open) and EVERY oracle valuation:
+   no exception escapes, the invariant holds again, and if this call makes the endpoint close, the code is documented. *)
+Theorem receive_datagram_total : forall c data orcs,
+  CodecProofs.bytes_ok data -> dconn_ok c ->
+  match receive_datagram true c data orcs with
+  | DOk c' _ => dconn_ok c' /\ (c_close (d_st c) = None -> own_close_ok (po0 :: orcs) (c_close (d_st c')))
+  | DRaise _ _ => False
+  end.
+Proof. exact receive_datagram_total_all. Qed.
+Print Assumptions receive_datagram_total.
+
+(* ... hence for any sequence of datagrams *)
+Theorem receive_datagrams_total : forall ds c,
+  Forall (fun d => CodecProofs.bytes_ok (fst d)) ds -> dconn_ok c ->
+  exists c', receive_all true c ds = Some c' /\ dconn_ok c'.
+Proof. exact receive_all_total. Qed.
+Print Assumptions receive_datagrams_total.
+
+(* a parsed header has consumed at least one byte (the loop terminates), and a Retry header its 16-byte tag
+   (so `buf.data_slice(start_off, buf.tell() - 16)` cannot raise) *)
+Theorem header_consumes : forall hcl bs h rest,
+  Header.pull_quic_header hcl bs = Ok (h, rest) ->
+  Zlen rest + (if Header.h_type h =? Header.PT_RETRY then 16 else 1) <= Zlen bs.
+Proof. exact header_consumed. Qed.
+Print Assumptions header_consumes.
